@@ -459,6 +459,12 @@ def _inline_helpers(spec, src, m, item, known):
                 lets.append("let %s%s: %s = %s;" % (pm_.group(1) or "", pm_.group(2), pm_.group(3).strip(), arg))
             if not ok:
                 continue
+            # the lets are sequential: an argument that mentions an earlier parameter's name would read the parameter,
+            # not the caller's variable of that name - unless that parameter was bound to exactly that variable
+            names = [re.match(r"(mut\s+)?([a-z_][a-z0-9_]*)", prm).group(2) for prm in params]
+            if any(re.search(r"\b%s\b" % re.escape(names[i]), rs.mask(args[j])) and args[i].strip() != names[i]
+                   for j in range(len(args)) for i in range(j)):
+                continue
             block = "{ /* D36: body of `%s` inlined */ %s %s }" % (name, " ".join(lets), src[helper.body_open + 1:helper.body_close].strip())
             src = src[:cs] + block + src[pc + 1:]
             m = rs.mask(src)
